@@ -99,9 +99,11 @@ def run_contract(c, values, info):
 
     shared = {}
     vals = {k: S.build_native(node, k, values, shared) for k, node in c.state.items()}
-    order = list(c.state.keys())
+    order = [k for k in c.state.keys() if k not in getattr(c, 'ghost', [])]
     failed = []
     detail = {}
+    for sk in getattr(c, "setup", []):
+        call_by_name(get_spec(sk), vals)
     for r in c.requires:
         if not call_by_name(get_spec(r), vals):
             return {"reproduced": False, "error": "model does not satisfy requires %s natively" % r}
